@@ -294,7 +294,12 @@ func (g *Gen) delegate(vi int, chain string, valid bool) {
 			nonce = seq
 		}
 	}
-	out := g.do(fmt.Sprintf("delegate %s %s %s %s %s %s %d %d", chain, v.addr, orch, eth, signedBy, signedVal, nonce, seq))
+	op := "delegate"
+	if keysgenAvailable() && g.rng.Intn(4) == 0 {
+		op = "delegatek" // the signature comes from the repository's keys generator
+		g.stats["keys:signature-from-the-keys-generator"]++
+	}
+	out := g.do(fmt.Sprintf("%s %s %s %s %s %s %s %d %d", op, chain, v.addr, orch, eth, signedBy, signedVal, nonce, seq))
 	if out == "ok" {
 		v.orch[chain] = orch
 		v.eth[chain] = eth
